@@ -35,7 +35,22 @@
      simulation relation follows the tree).  The one-level theorems are the special
      case where every kid of a group is a leaf; they are kept.
 
+   * C04_flatten_histories (+ _Z, _onelevel) and C04_hist_spec : all of the above lifted from
+     do_run to run_hist (Proofs/SchedHist.v): a first do()/ado() followed by any number of
+     re-runs of the same doer objects, RAgain (same Doist, new limit/tyme) or RFresh (a NEW
+     Doist with its own tyme).  The nested and the flat history are given together: a fresh
+     Doist receives a duplicate-free selection, in any order, of the program's TOP-LEVEL items
+     — the nested run their top ids, the flat run their leaves in tree order.  Proof: the
+     phase lemmas again from an arbitrary pre-state (doers GDone or GNew), with two more
+     conclusions — doers lists never change, every item leaving the live forest is ended —
+     which re-establish "every doer startable, every DoDoer deque empty" after each run
+     (Proofs/SchedTreeHistRun.v, SchedTreeHist.v, SchedFlatHist.v).  Full for the model side,
+     partial (same hypothesis) for the comparison; nothing refuted: in the model every re-run
+     re-enters all doers at the current Doist's tyme, which is what seeded/C04-3 breaks in the code.
+
    NOT proved (covered only by the correspondence + oracle of harness/drivers/c04.py):
+   * RFresh lists that are not selections of top-level items (e.g. a DoDoer's kid handed
+     directly to a new Doist);
    * groups with a non-zero tock or always = true below the root (the driver's C04 stream
      does not generate them; C03 does);
    * programs with extend/remove or raising doers (outside the quantifier of C04);
@@ -47,7 +62,8 @@
 From Coq Require Import PrimFloat.
 From Hio Require Import Base.Prelude Base.AMap Base.Time Model.Sched
   Proofs.SchedFlatDefs Proofs.SchedFlatRun Proofs.SchedFlatSim Proofs.SchedFlatTop
-  Proofs.SchedTreeDefs Proofs.SchedTreeRun Proofs.SchedTreeSim Proofs.SchedTreeTop.
+  Proofs.SchedTreeDefs Proofs.SchedTreeRun Proofs.SchedTreeSim Proofs.SchedTreeTop
+  Proofs.SchedHist Proofs.SchedTreeHistRun Proofs.SchedTreeHist Proofs.SchedFlatHist.
 
 (* ---------- the refutation: D35 ---------- *)
 
@@ -277,6 +293,109 @@ Proof. split; vm_compute; reflexivity. Qed.
 Example C04_deep_witness_excluded :
   forallb no_asap_then_positive (tgrouped_leaves [TGroup 3%N [TLeaf wz1; TLeaf wz2]]) = false.
 Proof. reflexivity. Qed.
+
+(* ---------- histories: second and later runs of the same doer objects ---------- *)
+
+(* Proofs/SchedHist.v: run_hist cycles fuel asyn p h = the first do()/ado() of p followed by the
+   re-runs h (RAgain: the same Doist again, optionally with a new limit/tyme; RFresh: a NEW
+   Doist with its own tyme, given a list of root doers).  A common history of the nested and
+   of the flat program is a [trerun] list: TAgain, or TFresh with a duplicate-free selection
+   [sel], in any order, of the program's TOP-LEVEL trees (wf_rerun).  The nested history
+   (nest_rerun) hands the fresh Doist the top ids of sel (= p_doers of the nested program when
+   sel is the whole program), the flat history (flat_rerun) the leaves of sel in tree order.
+   Same laws, same hypothesis on grouped leaves; do and ado may be mixed (a1, a2). *)
+Theorem C04_flatten_histories :
+  forall (T : Type) (TT : Time T) (tk z0 : T) (gs : list (gtree T)) (limit : option T) (t0 : T)
+         (h : list (trerun (T:=T))) (c1 f1 : nat) (a1 : bool) (c2 f2 : nat) (a2 : bool),
+    flat_laws tk z0 ->
+    wf_tree gs -> Forall (wf_rerun gs) h ->
+    forallb no_asap_then_positive (tgrouped_leaves gs) = true ->
+    oof (run_hist c1 f1 a1 (tnest_prog tk limit t0 z0 gs) (map nest_rerun h)) = false ->
+    oof (run_hist c2 f2 a2 (flat_prog tk limit t0 (gflatten gs)) (map flat_rerun h)) = false ->
+    leaf_view (map lf_id (gflatten gs)) (run_hist c1 f1 a1 (tnest_prog tk limit t0 z0 gs) (map nest_rerun h)) =
+    leaf_view (map lf_id (gflatten gs)) (run_hist c2 f2 a2 (flat_prog tk limit t0 (gflatten gs)) (map flat_rerun h)).
+Proof. intros. now apply flatten_hist. Qed.
+Print Assumptions C04_flatten_histories.
+
+Theorem C04_flatten_histories_Z :
+  forall (tk : Z) (gs : list (gtree Z)) (limit : option Z) (t0 : Z)
+         (h : list (trerun (T:=Z))) (c1 f1 : nat) (a1 : bool) (c2 f2 : nat) (a2 : bool),
+    (0 <= tk)%Z ->
+    wf_tree gs -> Forall (wf_rerun gs) h ->
+    forallb no_asap_then_positive (tgrouped_leaves gs) = true ->
+    oof (run_hist c1 f1 a1 (tnest_prog tk limit t0 0%Z gs) (map nest_rerun h)) = false ->
+    oof (run_hist c2 f2 a2 (flat_prog tk limit t0 (gflatten gs)) (map flat_rerun h)) = false ->
+    leaf_view (map lf_id (gflatten gs)) (run_hist c1 f1 a1 (tnest_prog tk limit t0 0%Z gs) (map nest_rerun h)) =
+    leaf_view (map lf_id (gflatten gs)) (run_hist c2 f2 a2 (flat_prog tk limit t0 (gflatten gs)) (map flat_rerun h)).
+Proof. intros. apply flatten_hist; auto using flat_laws_Z. Qed.
+Print Assumptions C04_flatten_histories_Z.
+
+(* one level of grouping (the programs of C04_flatten_partial), histories over its items *)
+Theorem C04_flatten_histories_onelevel :
+  forall (T : Type) (TT : Time T) (tk z0 : T) (gs : list (gitem T)) (limit : option T) (t0 : T)
+         (h : list (grerun (T:=T))) (c1 f1 : nat) (a1 : bool) (c2 f2 : nat) (a2 : bool),
+    flat_laws tk z0 -> wf_group gs -> Forall (wf_grerun gs) h ->
+    forallb no_asap_then_positive (grouped_leaves gs) = true ->
+    oof (run_hist c1 f1 a1 (nest_prog tk limit t0 z0 gs) (map gnest_rerun h)) = false ->
+    oof (run_hist c2 f2 a2 (flat_prog tk limit t0 (flatten gs)) (map gflat_rerun h)) = false ->
+    leaf_view (map lf_id (flatten gs)) (run_hist c1 f1 a1 (nest_prog tk limit t0 z0 gs) (map gnest_rerun h)) =
+    leaf_view (map lf_id (flatten gs)) (run_hist c2 f2 a2 (flat_prog tk limit t0 (flatten gs)) (map gflat_rerun h)).
+Proof. intros. now apply flatten_hist_onelevel. Qed.
+Print Assumptions C04_flatten_histories_onelevel.
+
+(* the model-side half over histories (C04_run_spec / C04_tree_run_spec lifted): the first run
+   computes tspec_run, every later run tspec_tail from the tyme and outputs left behind, for the
+   Doist's current doers; no hypothesis on tocks *)
+Theorem C04_hist_spec :
+  forall (T : Type) (TT : Time T) (tk z0 : T) (gs : list (gtree T)) (limit : option T) (t0 : T)
+         (cycles fuel : nat) (asyn : bool) (h : list (trerun (T:=T))),
+    wf_tree gs -> Forall (wf_rerun gs) h ->
+    oof (run_hist cycles fuel asyn (tnest_prog tk limit t0 z0 gs) (map nest_rerun h)) = false ->
+    exists st0 r, tspec_run tk (tabs z0) cycles limit t0 gs = Some st0 /\
+      tspec_hist tk z0 cycles gs st0 h = Some r /\
+      leaf_view (map lf_id (gflatten gs)) (run_hist cycles fuel asyn (tnest_prog tk limit t0 z0 gs) (map nest_rerun h)) =
+      view_of (map lf_id (gflatten gs)) r.
+Proof. intros. now apply tree_hist_spec. Qed.
+Print Assumptions C04_hist_spec.
+
+(* a history over the depth-3 example: the same Doist again with limit 5 from tyme 100, then a
+   new Doist at tyme 200 given the third and the first top-level item, in that order *)
+Definition ex_hist : list (trerun (T:=Z)) :=
+  [TAgain (Some 5%Z) (Some 100%Z);
+   TFresh None 200%Z [TGroup 14%N [TGroup 15%N [TLeaf ef]]; TLeaf ee]].
+
+Example C04_hist_example_hyps :
+  Forall (wf_rerun ex_tree) ex_hist /\
+  oof (run_hist 40 300 false (tnest_prog 2%Z None 10%Z 0%Z ex_tree) (map nest_rerun ex_hist)) = false /\
+  oof (run_hist 30 100 true (flat_prog 2%Z None 10%Z (gflatten ex_tree)) (map flat_rerun ex_hist)) = false.
+Proof.
+  split; [|split; vm_compute; reflexivity].
+  apply Forall_cons; [exact I|]. apply Forall_cons; [|apply Forall_nil]. split.
+  - intros g [<-|[<-|[]]]; cbn; auto.
+  - vm_compute. repeat constructor; cbn; intuition discriminate.
+Qed.
+
+Example C04_hist_example_use :
+  leaf_view (map lf_id (gflatten ex_tree))
+    (run_hist 40 300 false (tnest_prog 2%Z None 10%Z 0%Z ex_tree) (map nest_rerun ex_hist)) =
+  leaf_view (map lf_id (gflatten ex_tree))
+    (run_hist 30 100 true (flat_prog 2%Z None 10%Z (gflatten ex_tree)) (map flat_rerun ex_hist)).
+Proof.
+  destruct C04_deep_example_hyps as (W & Hy & _).
+  destruct C04_hist_example_hyps as (Wh & O1 & O2).
+  apply C04_flatten_histories_Z; auto; lia.
+Qed.
+
+(* not vacuous: leaf 1 (inside DoDoer 10) is entered in the first and in the second run, leaf 6
+   (inside DoDoers 14 > 15) in all three, the last time at the new Doist's tyme 200; the second run
+   force-closes under its limit *)
+Example C04_hist_example_nontrivial :
+  let s := run_hist 40 300 false (tnest_prog 2%Z None 10%Z 0%Z ex_tree) (map nest_rerun ex_hist) in
+  length (filter (fun e => match e_kind e with Enter => N.eqb (e_id e) 1 | _ => false end) (trace s)) = 2%nat /\
+  length (filter (fun e => match e_kind e with Enter => N.eqb (e_id e) 6 | _ => false end) (trace s)) = 3%nat /\
+  existsb (fun e => match e_kind e with Enter => N.eqb (e_id e) 6 && Z.eqb (e_tyme e) 200 | _ => false end) (trace s) = true /\
+  existsb (fun e => match e_kind e with Cease => Z.leb 100 (e_tyme e) | _ => false end) (trace s) = true.
+Proof. cbv zeta. repeat split; vm_compute; reflexivity. Qed.
 
 (* the lifecycle invariant that the argument relies on (Props/C01.v) still holds for every run *)
 From Hio Require Import Proofs.SchedLife Proofs.SchedTop.
